@@ -34,7 +34,7 @@ extern "C" void asl_verif_point(int kind, const volatile void* obj)
 		return;
 	}
 	uint64_t js = g_jitter.load(std::memory_order_relaxed);
-	if (!js || kind < 10 || kind > 17)
+	if (!js || kind < 10 || kind > 18)
 		return;
 	unsigned idx = g_pointno++;
 	uint64_t h = (js + idx * 0x9e3779b97f4a7c15ULL + (uint64_t)kind * 0xbf58476d1ce4e5b9ULL);
@@ -320,6 +320,58 @@ static void scenario_cond(int nprod, int ncons, int per, int delay)
 	VF_CHECK(avail == 0, "Condition: ", avail, " items left after equal numbers of produce and consume steps");
 }
 
+// Condition as documented for "one or more threads" waiting for a flag: lock; while(!ready) wait(); unlock --
+// one thread sets the flag and signals ONCE under the lock; every waiter must get through
+static void scenario_condflag(int nwait, int delay)
+{
+	nwait = 1 + (nwait % 6 + 6) % 6;
+	Mutex mutex;
+	Condition cond(mutex);
+	bool ready = false; // protected by mutex
+	std::atomic<int> done{0}, waiting{0};
+	Mutex* pm = &mutex;
+	Condition* pc = &cond;
+	bool* pr = &ready;
+	std::atomic<int>*pd = &done, *pw = &waiting;
+	std::vector<Thread*> ts;
+	for (int c = 0; c < nwait; c++)
+		ts.push_back(new Thread([=]() {
+			pm->lock();
+			(*pw)++;
+			while (!*pr)
+				pc->wait();
+			pm->unlock();
+			(*pd)++;
+		}));
+	// usually let the waiters block first (delay), sometimes signal at once
+	if (delay % 4 != 0) {
+		double t0 = vf::now();
+		while (waiting < nwait && vf::now() - t0 < 5)
+			usleep(50);
+		usleep(delay % 300);
+	}
+	mutex.lock();
+	ready = true;
+	cond.signal();
+	mutex.unlock();
+	double t0 = vf::now();
+	while (done < nwait && vf::now() - t0 < 20)
+		usleep(200);
+	bool hung = done < nwait;
+	int done_at_timeout = done;
+	for (int k = 0; k < 2000 && done < nwait; k++) { // release stuck waiters so the threads can be joined
+		mutex.lock();
+		cond.signal();
+		mutex.unlock();
+		usleep(1000);
+	}
+	for (auto t : ts) {
+		t->join();
+		delete t;
+	}
+	VF_CHECK(!hung, "Condition: the flag was set and signalled once under the lock, but only ", done_at_timeout, " of ", nwait, " waiters got through within 20 s (lost signal)");
+}
+
 // ---------------------------------------------------------------------------------------------
 
 struct DfsInfo {
@@ -427,6 +479,8 @@ void vf_run_case(const std::string& part, const vf::Case& c)
 			scenario_sem((int)o.i(0), (int)o.i(1), (int)o.i(2), (int)o.i(3));
 		else if (o.name == "cond")
 			scenario_cond((int)o.i(0), (int)o.i(1), (int)o.i(2), (int)o.i(3));
+		else if (o.name == "condflag")
+			scenario_condflag((int)o.i(0), (int)o.i(3));
 		else if (o.name == "hand")
 			run_under_scheduler(o);
 	}
@@ -525,7 +579,7 @@ void vf_search(const vf::Args& a)
 	}();
 	// (5) Semaphore / Condition scripts
 	[&]() {
-		auto g = gen::map(gen::tuple(gen::element(std::string("sem"), std::string("cond")), vf::irange<int>(0, 3), vf::irange<int>(0, 3), vf::irange<int>(0, 49), vf::irange<int>(0, 1000)),
+		auto g = gen::map(gen::tuple(gen::element(std::string("sem"), std::string("cond"), std::string("condflag")), vf::irange<int>(0, 3), vf::irange<int>(0, 3), vf::irange<int>(0, 49), vf::irange<int>(0, 1000)),
 		                  [](const std::tuple<std::string, int, int, int, int>& t) {
 			                  vf::Case c;
 			                  c.add(vf::Op(std::get<0>(t), {std::get<1>(t), std::get<2>(t), std::get<3>(t), std::get<4>(t)}));
